@@ -261,6 +261,7 @@ type vcfsRun struct {
 	names   map[string]string // abstract name -> concrete name (C09 "bytes" mode)
 	dead    bool              // a panic or hang was recorded: stop
 	origLoc map[string]bool   // hash+size of blocks of the original manifest
+	marks   []int             // start / end offsets of recent writes and truncates (see posReads)
 	mu      sync.Mutex
 }
 
@@ -402,6 +403,12 @@ func (r *vcfsRun) do(op vcfsOp) {
 			return
 		}
 		r.log(vcfsEvent{"ev": "write", "h": op.H, "d": op.D, "n": n, "ok": err == nil})
+		if err == nil {
+			// where did it end?  (Seek(0, current) changes nothing; asked only to aim posReads)
+			var pos int64
+			r.guard("tell", func() { pos, _ = f.Seek(0, io.SeekCurrent) })
+			r.mark(int(pos)-n, int(pos))
+		}
 	case "read":
 		f := r.handles[op.H]
 		if f == nil {
@@ -449,6 +456,7 @@ func (r *vcfsRun) do(op vcfsOp) {
 			return
 		}
 		r.log(vcfsEvent{"ev": "trunc", "h": op.H, "n": op.N, "ok": err == nil})
+		r.mark(op.N)
 	case "size":
 		f := r.handles[op.H]
 		if f == nil {
@@ -675,6 +683,108 @@ func (r *vcfsRun) snap() {
 	}
 	_ = total
 	r.log(vcfsEvent{"ev": "snap", "ents": ents, "total": int(fssize)})
+}
+
+// posReads: positioned reads.  The sequential read of the snapshot walks a file from offset 0 with
+// an always-valid pointer; a reader that STARTS somewhere (after Seek, or through a handle whose
+// pointer is recomputed) takes another path through filenode.seek.  So every file is also read
+// through a fresh read-only handle at chosen offsets - Seek(off) then Read(k) - logged as ordinary
+// open / seek / read / close events which the contract judges like any other call.  Offsets: all
+// of 0..size for small files, otherwise a seeded sample with the segment-boundary candidates
+// (multiples of the block limit -1/0/+1, start and end offsets of recent writes, size-1, size).
+const vcfsPosHandle = 900
+
+func (r *vcfsRun) posReads() {
+	if r.dead || r.scn.NoSnap {
+		return
+	}
+	_, files := r.existing()
+	bs := r.scn.BS
+	if bs <= 0 || bs > 64 {
+		bs = 64
+	}
+	for _, p := range files {
+		var f File
+		var err error
+		r.guard("posopen", func() { f, err = r.fs.OpenFile(r.plainPath(p), os.O_RDONLY, 0) })
+		if r.dead {
+			return
+		}
+		r.log(vcfsEvent{"ev": "open", "h": vcfsPosHandle, "p": p, "acc": "r", "cr": false, "ex": false, "tr": false, "ap": false, "ok": err == nil})
+		if err != nil {
+			continue
+		}
+		size := int(f.Size())
+		offs := map[int]bool{}
+		if size <= 16 {
+			for o := 0; o <= size; o++ {
+				offs[o] = true
+			}
+		} else {
+			for _, o := range []int{0, size - 1, size} {
+				offs[o] = true
+			}
+			for _, o := range r.marks {
+				offs[o] = true
+			}
+			for i := 0; i < 4; i++ {
+				m := (1 + r.rng.Intn(size/bs+1)) * bs
+				offs[m-1], offs[m], offs[m+1] = true, true, true
+			}
+			offs[r.rng.Intn(size)] = true
+		}
+		list := []int{}
+		for o := range offs {
+			if o >= 0 && o <= size {
+				list = append(list, o)
+			}
+		}
+		sort.Ints(list)
+		if len(list) > 24 {
+			r.rng.Shuffle(len(list), func(i, j int) { list[i], list[j] = list[j], list[i] })
+			list = list[:24]
+		}
+		for _, o := range list {
+			var pos int64
+			r.guard("posseek", func() { pos, err = f.Seek(int64(o), io.SeekStart) })
+			if r.dead {
+				return
+			}
+			r.log(vcfsEvent{"ev": "seek", "h": vcfsPosHandle, "off": o, "wh": 0, "pos": int(pos), "ok": err == nil})
+			k := 1 + r.rng.Intn(3)
+			buf := make([]byte, k)
+			var n int
+			r.guard("posread", func() { n, err = f.Read(buf) })
+			if r.dead {
+				return
+			}
+			if n < 0 || n > k {
+				r.log(vcfsEvent{"ev": "panic", "op": "read", "what": fmt.Sprintf("Read returned n=%d for a %d-byte buffer", n, k)})
+				r.dead = true
+				return
+			}
+			r.log(vcfsEvent{"ev": "read", "h": vcfsPosHandle, "n": k, "d": vcfsAbs(buf[:n]), "res": vcfsResOf2(err)})
+		}
+		r.guard("posclose", func() { f.Close() })
+		r.log(vcfsEvent{"ev": "close", "h": vcfsPosHandle})
+	}
+}
+
+func vcfsResOf2(err error) string {
+	if err == io.EOF {
+		return "eof"
+	} else if err != nil {
+		return "err"
+	}
+	return "nil"
+}
+
+// mark remembers start and end offsets of the last writes / truncates (boundary candidates).
+func (r *vcfsRun) mark(offs ...int) {
+	r.marks = append(r.marks, offs...)
+	if len(r.marks) > 8 {
+		r.marks = r.marks[len(r.marks)-8:]
+	}
 }
 
 // dirs returns the abstract paths of all directories currently present (generator feedback).
@@ -1081,6 +1191,9 @@ func vcfsRunScenario(scn vcfsScenario) []vcfsEvent {
 		}
 		r.flushStep(scn.Flush)
 		r.snap()
+		if op.Op == "write" || op.Op == "trunc" || (op.Op == "open" && op.Tr) {
+			r.posReads()
+		}
 	}
 	if scn.Mode == "random" {
 		for i := 0; i < scn.NOps && !r.dead; i++ {
